@@ -36,7 +36,7 @@ def _parse_block(lines, cases_by_id):
             cur.out[f[0]] = (f[1], f[2] if len(f) > 2 else "")
 
 
-def run_pipe(b, cases, stages="asw", timeout=300):
+def run_pipe(b, cases, stages="asw", timeout=300, cwd=None):
     """Runs all cases through tshdump in parallel worker processes.  A worker that dies (fatal Go
     error such as a stack overflow) is detected per case: the unfinished case gets class CRASH and the
     remaining cases of the chunk are re-run."""
@@ -49,7 +49,7 @@ def run_pipe(b, cases, stages="asw", timeout=300):
             try:
                 try:
                     p = subprocess.run([b.tshdump, "pipe", wd], input=("\n".join(c.line(stages) for c in todo) + "\n").encode(),
-                                       stdout=subprocess.PIPE, stderr=subprocess.PIPE, timeout=timeout,
+                                       stdout=subprocess.PIPE, stderr=subprocess.PIPE, timeout=timeout, cwd=cwd,
                                        env=dict(os.environ, GOMEMLIMIT="2GiB", GOMAXPROCS="2"))
                     out = p.stdout.decode("utf-8", "replace").splitlines()
                     timed_out = False
